@@ -534,9 +534,36 @@ class DataGen:
         self.f = feat
         self.table = table
         self.heights, self.nh = M.min_heights(table)
+        self._root = None
+        self.has_float = False
+
+    def _scan_float(self, node, seen):
+        k = node["k"]
+        if k == "float":
+            return True
+        if k == "ref":
+            if node["name"] in seen:
+                return False
+            seen.add(node["name"])
+            return self._scan_float(self.table[node["name"]], seen)
+        if k == "record":
+            seen.add(node["name"])
+            return any(self._scan_float(f["type"], seen) for f in node["fields"])
+        if k == "array":
+            return self._scan_float(node["items"], seen)
+        if k == "map":
+            return self._scan_float(node["values"], seen)
+        if k == "union":
+            return any(self._scan_float(b, seen) for b in node["branches"])
+        return False
 
     def gen(self, node, budget, in_union=False):
         d, f = self.d, self.f
+        if self._root is None:
+            # doubles beyond IEEE single range are only drawn when no 'float' exists anywhere in the schema:
+            # an unhinted value may legitimately be written under a float branch, where it is not representable
+            self._root = node
+            self.has_float = self._scan_float(node, set())
         k = node["k"]
         if k == "ref":
             return self.gen(self.table[node["name"]], budget, in_union)
@@ -555,10 +582,14 @@ class DataGen:
         if k == "double":
             w = d.i(10)
             if w < 5:
-                return d.choice(DOUBLES)
-            if w < 8:
-                return d.draw(st.floats())
-            return d.choice(LONG_B)  # a Python int under double
+                x = d.choice(DOUBLES)
+            elif w < 8:
+                x = d.draw(st.floats())
+            else:
+                return d.choice(LONG_B)  # a Python int under double
+            if self.has_float and x == x and abs(x) != float("inf") and abs(x) > B.F32_MAX:
+                x = math.copysign(B.F32_MAX, x)
+            return x
         if k == "float":
             w = d.i(10)
             if w < 4:
